@@ -62,6 +62,34 @@ def count_of(y):
     return dict(rules=len(rules), tokens=len(toks), prods=prods, maxsyms=maxsyms, eco=False, implicit=0, toksyms=toksyms)
 
 
+def narrow_grammars(res, prop):
+    """the grammar object at the edge of a narrow index type, as C10 sees it: u8 builds of grammars with
+    253 .. 257 rules / tokens / productions must report the sizes the source defines (dense numbering,
+    indices in range) or be refused - never wrap, never panic in a query"""
+    insts = []
+    for dim in ("rules", "tokens", "prods"):
+        for v in range(252, 258):
+            for eco in ([False, True] if dim != "tokens" else [False]):
+                y, c = gen(dim, v, eco, nimp=2 if eco else 0)
+                insts.append(dict(id="narrow-%s-%d%s" % (dim, v, "-eco" if eco else ""), y=y, kind="eco" if eco else "original", counts=c, skip16=True))
+    job = os.path.join(res.wd, "narrow-job.json")
+    trace = os.path.join(res.wd, "narrow-trace.ndjson")
+    with open(job, "w") as f:
+        json.dump(dict(instances=insts), f)
+    core.run_vh(["width", job, trace], timeout=1200)
+    v = core.run_tlc("TraceWidth", "TraceWidth.cfg", dict(TRACE=trace, PROP=prop), res.wd, timeout=600, workers=1)
+    res.add_tlc(v)
+    if "DONE" not in v["out"] and v["error"]:
+        raise core.ToolError("TraceWidth did not finish: " + v["error"][:500])
+    byid = {i["id"]: i for i in insts}
+    for t in core.tuples(v["out"]):
+        if '"DEV"' in t[:12]:
+            d = core.parse_dev(t)
+            res.deviation(d, dict(instance=byid.get(d["inst"])))
+    res.notes["narrow_grammar_objects"] = len(insts)
+    res.cov["traces_validated_against_impl"] += len(insts)
+
+
 def main(pid, tier, replay=None):
     res = core.Result(pid, "model_checking", tier)
     thorough = tier == "thorough"
